@@ -117,7 +117,7 @@ EvalVar(st, env, e) ==
        ELSE IF \E f \in BuiltinFnNames : e.n = f \o "~" THEN
               LET f == CHOOSE f \in BuiltinFnNames : e.n = f \o "~" IN
               IF e.explode THEN Throw(st, env, CType) ELSE Vals(st, env, <<VBuiltin(f)>>)
-       ELSE Throw(st, env, COOM)
+       ELSE Throw(st, env, OOM("unresolved variable"))
 
 \* "Function": a lambda evaluates to a new closure over the current environment.
 \* closure == [k:"fn", id, params, rest, optn: Seq(name), optd: Seq(Value), body: chunk, env, wrap]
@@ -173,7 +173,7 @@ EvalExpr(st, env, e) ==
                         IF Failed(rd) THEN rd
                         ELSE [rd EXCEPT !.st.nfn = @ + 1,
                                         !.vs = <<Closure(rd.st.nfn, e, rd.vs, rd.env, FALSE)>>]
-    [] OTHER -> Throw(st, env, COOM)
+    [] OTHER -> Throw(st, env, OOM("expression kind outside the model"))
 
 EvalExprs(st, env, es, i) ==
   IF i > Len(es) THEN Done(st, env)
@@ -284,7 +284,7 @@ RECURSIVE CallBuiltin(_, _, _, _, _)
 \* env is the caller's environment (returned unchanged).
 CallFn(st, env, f, args, opts) ==
   IF f.id = 0 THEN CallBuiltin(st, env, f.b, args, opts)
-  ELSE IF st.depth >= MaxDepth THEN Throw(st, env, COOM)
+  ELSE IF st.depth >= MaxDepth THEN Throw(st, env, OOM("call depth"))
   ELSE
     LET d == Distribute(args, Len(f.params), f.rest) IN
     IF ~d.ok THEN Throw(st, env, CArity)
@@ -306,7 +306,7 @@ Inputs(st, args, nfixed) ==
     IF ~Iterable(v) THEN [ok |-> FALSE, c |-> CType]
     ELSE IF v.k = "str" /\ ~Ascii(v.s) THEN [ok |-> FALSE, c |-> COOM]
     ELSE [ok |-> TRUE, vs |-> Elements(v), st |-> st]
-  ELSE IF ~st.inok THEN [ok |-> FALSE, c |-> COOM]
+  ELSE IF ~st.inok THEN [ok |-> FALSE, c |-> OOM("a callback reads its caller's input")]
   ELSE [ok |-> TRUE, vs |-> st.inp, st |-> [st EXCEPT !.inp = <<>>, !.rd = TRUE]]
 
 \* an exact integer argument (take, drop): [ok, n] | [ok |-> FALSE, c]
@@ -465,7 +465,7 @@ CallBuiltin(st, env, name, args, opts) ==
                                            ELSE LET srt == SortItems(IF rev.b THEN Reverse(items) ELSE items, 1, <<>>)
                                                     ord == IF rev.b THEN Reverse(srt.items) ELSE srt.items
                                                 IN Outs(rk.st, env, [q \in 1..Len(ord) |-> ord[q].v])
-         [] OTHER -> Throw(st, env, COOM)
+         [] OTHER -> Throw(st, env, OOM("builtin outside the model"))
 
 \* options of a command: &name=expr, each expression exactly one value
 EvalOpts(st, env, opts, i, acc) ==
@@ -485,7 +485,7 @@ EvalHead(st, env, h) ==
       LET v == st.store[env[h.n \o "~"]] IN
       IF v.k = "fn" THEN Vals(st, env, <<v>>) ELSE Throw(st, env, COOM)
     ELSE IF h.n \in BuiltinFnNames THEN Vals(st, env, <<VBuiltin(h.n)>>)
-    ELSE Throw(st, env, COOM)                                        \* external command
+    ELSE Throw(st, env, OOM("external command"))
   ELSE LET r == EvalExpr(st, env, h) IN
        IF Failed(r) THEN r
        ELSE IF Len(r.vs) # 1 THEN [r EXCEPT !.vs = <<>>, !.exc = CArity]
@@ -547,7 +547,7 @@ ExecIf(st, env, f, i) ==
 
 \* "while": `continue` ends an iteration, `break` the loop; the else body runs if the body never ran
 ExecWhile(st, env, f, iterated, fuel) ==
-  IF fuel = 0 THEN Throw(st, env, COOM)
+  IF fuel = 0 THEN Throw(st, env, OOM("while: more iterations than the model allows"))
   ELSE LET rc == EvalExpr(st, env, f.cond) IN
        IF Failed(rc) THEN [rc EXCEPT !.vs = <<>>]
        ELSE IF ~AllTruthy(rc.vs) THEN
@@ -583,18 +583,21 @@ ExecFor(st, env, f) ==
                     (IF f.els # <<>> THEN After(r0, ExecBlock(ri.st, ri.env, f.els[1])) ELSE r0)
                   ELSE ExecForLoop(ri.st, ri.env, f, sv.loc, elems, 1, r0)
 
-\* "try"
+\* "try".  The variable named after `catch` follows the body lexically: the body does not see it
+\* (unless a variable of that name was in scope before); it is the variable of that name in scope,
+\* else a new variable of the current scope, declared whether or not an exception is caught.
 ExecTry(st, env, f) ==
-  LET sv == IF f.cvar # <<>> THEN ScopeVar(st, env, f.cvar[1]) ELSE [st |-> st, env |-> env, loc |-> 0]
-      rb == ExecBlock(sv.st, sv.env, f.body)
+  LET rb == ExecBlock(st, env, f.body)
+      sv == IF f.cvar # <<>> THEN ScopeVar(rb.st, env, f.cvar[1]) ELSE [st |-> rb.st, env |-> env, loc |-> 0]
+      rb1 == [rb EXCEPT !.st = sv.st, !.env = sv.env]
       \* after the body: catch (exception caught, stored in the variable) or else
       r1 == IF Skip(rb.exc) THEN rb
             ELSE IF Failed(rb) THEN
-                   IF f.catch = <<>> THEN rb
-                   ELSE LET stc == IF f.cvar # <<>> THEN SetLoc(rb.st, sv.loc, VExc(rb.exc)) ELSE rb.st
-                        IN After([rb EXCEPT !.exc = COk], ExecBlock(stc, sv.env, f.catch[1]))
-            ELSE IF f.els # <<>> THEN After(rb, ExecBlock(rb.st, sv.env, f.els[1]))
-            ELSE rb
+                   IF f.catch = <<>> THEN rb1
+                   ELSE LET stc == IF f.cvar # <<>> THEN SetLoc(sv.st, sv.loc, VExc(rb.exc)) ELSE sv.st
+                        IN After([rb1 EXCEPT !.exc = COk], ExecBlock(stc, sv.env, f.catch[1]))
+            ELSE IF f.els # <<>> THEN After(rb1, ExecBlock(sv.st, sv.env, f.els[1]))
+            ELSE rb1
   IN IF Skip(r1.exc) \/ f.fin = <<>> THEN r1
      ELSE LET rf == ExecBlock(r1.st, sv.env, f.fin[1]) IN
           \* an exception of the finally block replaces the pending one
@@ -629,7 +632,7 @@ ExecForm(st, env, f) ==
     [] f.t = "and"   -> EvalLogic(st, env, "and", f.args, 1, VBool(TRUE))
     [] f.t = "or"    -> EvalLogic(st, env, "or", f.args, 1, VBool(FALSE))
     [] f.t = "coalesce" -> EvalLogic(st, env, "coalesce", f.args, 1, VNil)
-    [] OTHER -> Throw(st, env, COOM)
+    [] OTHER -> Throw(st, env, OOM("form outside the model"))
 
 \* ---- pipelines and chunks ("Pipeline", "Pipeline exception")
 \* Stream semantics of a pipeline of value-stream commands: the value input of form k+1 is the
@@ -724,6 +727,6 @@ ExecTop(st, env, ps, i) ==
 \* EvalChunk: one Evaler.Eval.  -> [st, out, exc]
 EvalChunk(st, chunk) ==
   LET r == ExecTop(st, st.genv, chunk.ps, 1) IN
-  IF Skip(r.exc) THEN [st |-> st, out |-> <<>>, exc |-> COOM]
+  IF Skip(r.exc) THEN [st |-> st, out |-> <<>>, exc |-> r.exc]
   ELSE [st |-> [r.st EXCEPT !.genv = r.env, !.depth = 0], out |-> r.out, exc |-> r.exc]
 =============================================================================
